@@ -72,6 +72,7 @@ type ClientSpec struct {
 	NotBefore int                `json:"not_before,omitempty"`
 	WFault    []world.WriteFault `json:"wfault,omitempty"`
 	Real      bool               `json:"real,omitempty"` // ops run through tacquito.Client
+	ReusePkt  bool               `json:"reuse_pkt,omitempty"` // Real: the caller refills one packet object for every request
 	// SrvScript: for Real clients talking to a model server: replies the model server
 	// writes, one list per request received.
 	SrvReplies []SrvReply `json:"srv_replies,omitempty"`
